@@ -34,6 +34,10 @@ type verdictRec struct {
 	// DocWinners: the referrer-level exceptions (indexes into the src pool) that may be reported when no rule of the
 	// request itself decides
 	DocWinners []int `json:"docwinners,omitempty"`
+	// Web2 / Winners2 / Cands2: the verdict for a script request to the same URL from the same page
+	Web2     string `json:"web2,omitempty"`
+	Winners2 []int  `json:"winners2,omitempty"`
+	Cands2   []int  `json:"cands2,omitempty"`
 }
 
 type verdictMismatch struct {
@@ -128,7 +132,7 @@ func loadVerdictPool(rec *verdictRec) (*verdictEnv, error) {
 		t := rec.Main[i].text(0, rnd)
 		r, err := rules.NewNetworkRule(t, 1)
 		if err != nil {
-			return nil, fmt.Errorf("pool rule %q rejected: %v", t, err)
+			return nil, rejectedErr("pool rule %q rejected: %v", t, err)
 		}
 		if err = checkRendered(&rec.Main[i], r); err != nil {
 			return nil, fmt.Errorf("renderer self-check %q: %v", t, err)
@@ -148,7 +152,7 @@ func loadVerdictPool(rec *verdictRec) (*verdictEnv, error) {
 		t := rec.Src[i].text(0, rnd)
 		r, err := rules.NewNetworkRule(t, 1)
 		if err != nil {
-			return nil, fmt.Errorf("pool rule %q rejected: %v", t, err)
+			return nil, rejectedErr("pool rule %q rejected: %v", t, err)
 		}
 		if !r.Match(srcReq) || r.Match(e.req) {
 			return nil, fmt.Errorf("source pool rule %q does not match exactly the referrer request", t)
@@ -206,12 +210,16 @@ func safeCall(f func()) (panicV string) {
 }
 
 func buildStorage(lists [][]string) (*filterlist.RuleStorage, error) {
-	var ls []filterlist.RuleList
-	ids := []int{7, -5, 0, 2147483647}
-	for i, l := range lists {
-		ls = append(ls, &filterlist.StringRuleList{ID: ids[i%len(ids)], RulesText: strings.Join(l, "\n") + "\n"})
+	var texts []string
+	for _, l := range lists {
+		texts = append(texts, strings.Join(l, "\n"))
 	}
-	return filterlist.NewRuleStorage(ls)
+	// the list ids rotate too: 0 is an id like any other
+	layoutMu.Lock()
+	k := layoutCounter
+	layoutMu.Unlock()
+	ids := [][]int{{7, -5, 0, 2147483647}, {0, 3, -1, 9}, {-2147483648, 0, 5, 1}}[k%3]
+	return layoutStorage(texts, ids)
 }
 
 func splitLists(texts []string, k int, rnd *rand.Rand) [][]string {
@@ -477,6 +485,17 @@ func cmdReplayVerdict(args []string) error {
 				fromDoc = res.BasicRule == nil
 			})
 			check("Engine.MatchRequest", p, sp, lists, c.Web, c.Winners, c.Cands, got, fromDoc, pv)
+			if rep == 1 && c.Web2 != "" {
+				// a script of the same page: document-level rules of the bag do not apply to it
+				pv2 := safeCall(func() {
+					q := rules.NewRequest(verdictURL, verdictSrcURL, rules.TypeScript)
+					q.SortedClientTags, q.ClientName, q.DNSType = []string{"t1"}, "phone", dns.TypeA
+					res := urlfilter.NewEngine(st).MatchRequest(q)
+					got = res.GetBasicResult()
+					fromDoc = res.BasicRule == nil
+				})
+				check("Engine.MatchRequest(script request)", p, sp, lists, c.Web2, c.Winners2, c.Cands2, got, fromDoc, pv2)
+			}
 			if rep == 0 {
 				// the same bag with the referrer under a private public suffix (user.github.io, $domain=github.io) and
 				// patterns too short for the shortcut index ("||h.t*"), so that the rules are filed under their $domain:
